@@ -303,6 +303,9 @@ def run(check, an: Analysis):
     from ..paths import CANCEL_TASK
     c03._check_signal_lifecycles(check, an, _scope.wrapper_callee(an), rule='P',
                                  only=lambda fn, cls: cls == CANCEL_TASK)
+    # the kernel rules every suspending operation rests on (shared; see _scope)
+    from . import _scope as _kernel
+    _kernel.check_kernel_core(check, an)
     check.stats.update(an.stats())
 
 
